@@ -181,7 +181,7 @@ def run(ctx):
     if thorough:
         runs = [(3, 3, 2, 2, 1), (2, 4, 2, 2, 1), (2, 3, 3, 1, 1)]
     else:
-        runs = [(3, 3, 2, 2, 3), (2, 3, 3, 1, 12)]
+        runs = [(3, 3, 2, 2, 3), (2, 4, 2, 2, 6), (2, 3, 3, 1, 12)]
     total = 0
     ctx.exhaustive = all(x[4] == 1 for x in runs)
     for nr, nc, depth, al, mod in runs:
